@@ -309,10 +309,16 @@ MODEL_PARTS = {
     "LogisticRegression": [("binary", lambda rs: MD.LogisticRegression(epsilon=2.0, data_norm=1.5, max_iter=30,
                                                                        random_state=rs, accountant=acc()), _lr_out("y2")),
                            ("ovr", lambda rs: MD.LogisticRegression(epsilon=2.0, data_norm=1.5, max_iter=30,
-                                                                    random_state=rs, accountant=acc()), _lr_out("y3"))],
+                                                                    random_state=rs, accountant=acc()), _lr_out("y3")),
+                           # one-vs-rest problems in WORKER PROCESSES (loky): whatever is handed to a task is pickled
+                           ("ovr,n_jobs=2", lambda rs: MD.LogisticRegression(epsilon=2.0, data_norm=1.5, max_iter=30, n_jobs=2,
+                                                                             random_state=rs, accountant=acc()),
+                            _lr_out("y3"))],
     "PCA": [("fit", lambda rs: MD.PCA(n_components=2, epsilon=2.0, bounds=B3, data_norm=2.5, random_state=rs,
                                       accountant=acc()), _pca_out)],
-    "RandomForestClassifier": [("fit", lambda rs: _forest_make(rs), _forest_out)],
+    "RandomForestClassifier": [("fit", lambda rs: _forest_make(rs), _forest_out),
+                               ("fit,n_jobs=2", lambda rs: _forest_make(rs, n_jobs=2), _forest_out),
+                               ("fit,shuffle", lambda rs: _forest_make(rs, shuffle=True), _forest_out)],
     "DecisionTreeClassifier": [("fit", lambda rs: MD.DecisionTreeClassifier(
         epsilon=0.05, bounds=B3, classes=[0, 1, 2, 3], max_depth=5, random_state=rs, accountant=acc()), _tree_out),
         ("empty-leaf-label", lambda rs: MD.DecisionTreeClassifier(
@@ -327,6 +333,11 @@ SEQ_PARTS = {
     "RandomForestClassifier": [("warm_start", lambda rs: _forest_make(rs, n_estimators=2, warm_start=True),
                                 _forest_warm_first, _forest_warm_second)],
 }
+SEQ_PARTS["LogisticRegression"] = [
+    ("warm_start", lambda rs: MD.LogisticRegression(epsilon=2.0, data_norm=1.5, max_iter=30, warm_start=True, random_state=rs,
+                                                    accountant=acc()), _lr_out("y3"), _lr_out("y3")),
+    ("warm_start,n_jobs=2", lambda rs: MD.LogisticRegression(epsilon=2.0, data_norm=1.5, max_iter=30, warm_start=True, n_jobs=2,
+                                                             random_state=rs, accountant=acc()), _lr_out("y3"), _lr_out("y3"))]
 for _n, _vs in MODEL_PARTS.items():
     _v, _mk, _out = _vs[0]
     SEQ_PARTS.setdefault(_n, []).append(("refit", _mk, _out, _out))
@@ -773,7 +784,22 @@ def blackbox(ctx):
         random.setstate(saved[1])
 
 
+def _arm_workers():
+    """loky worker processes inherit os.environ: make them apply the third-party shims (harness/worker_site) and import
+    the same /repo tree before they unpickle library functions"""
+    import os
+    from .. import shim
+    site = os.path.join(leanio.VERIF, "harness", "worker_site")
+    pp = os.environ.get("PYTHONPATH", "")
+    if site not in pp.split(os.pathsep):
+        os.environ["PYTHONPATH"] = site + (os.pathsep + pp if pp else "")
+    os.environ["VERIF_WORKER_SHIM"] = "1"
+    os.environ["VERIF_REPO"] = shim.REPO
+    os.environ.setdefault("PYTHONWARNINGS", "ignore")
+
+
 def check(ctx):
+    _arm_workers()
     with seams.fresh_default_accountant():
         correspondence(ctx)
         blackbox(ctx)
@@ -781,6 +807,7 @@ def check(ctx):
 
 
 def replay(ctx, data):
+    _arm_workers()
     d = data["data"]
     ent = {(e, v): (f, g) for e, v, f, g in all_entries()}
     if d.get("kind") == "blackbox":
